@@ -73,6 +73,7 @@ type vCfg struct {
 	Products   []vProduct   `json:"products"`
 	NUsers     int          `json:"n_users"`
 	Lockers    []vLockerCfg `json:"lockers,omitempty"`
+	Liq        *vLiqCfg     `json:"liquidation,omitempty"`
 }
 
 type vOp struct {
@@ -114,6 +115,17 @@ type vMachine struct {
 	lockerMulti bool
 	lockerExit  int
 	unsolMod    map[string]sdk.Int // unsolicited transfers key "module/denom"
+	// liquidation / auctions
+	seized     map[uint64]*seizedVault // by locked vault id, while awaiting settlement
+	ledgers    map[uint64]*aucLedger   // live auctions
+	retained   map[string]sdk.Int      // fees that legitimately stay in auction custody, by denom
+	nSeized    int
+	nClosed    int
+	nRichClose int
+	nRestarts  int
+	nLimitExit int
+	nLimitOdd  int
+	pendingPre *liqSnap
 }
 
 func (m *vMachine) fail(assertion, ctx, f string, a ...interface{}) {
@@ -125,7 +137,7 @@ func collectorAddr() sdk.AccAddress { return authtypes.NewModuleAddress(collecto
 
 // ---- configuration ----
 
-func genVCfg(rt *rapid.T, prop string) vCfg {
+func genVCfg(rt *rapid.T, prop string, liq bool) vCfg {
 	cfg := vCfg{Seed: uint64(rapid.IntRange(1, 1000).Draw(rt, "seed")), NUsers: rapid.IntRange(2, 4).Draw(rt, "users")}
 	cfg.NApps = rapid.IntRange(1, 2).Draw(rt, "apps")
 	for i := 0; i < cfg.NApps; i++ {
@@ -170,6 +182,9 @@ func genVCfg(rt *rapid.T, prop string) vCfg {
 			p.Ceiling = rapid.SampledFrom([]string{"1000000000000000", "3000000000", "250000000"}).Draw(rt, fmt.Sprintf("pceil%d", i))
 		}
 		cfg.Products = append(cfg.Products, p)
+	}
+	if liq {
+		cfg.Liq = genVLiqCfg(rt, cfg.NApps)
 	}
 	if prop == "C13" || prop == "C18" {
 		for a := 0; a < cfg.NApps; a++ {
@@ -232,10 +247,17 @@ func newVMachine(t rec.TB, r *rec.Rec, prop string, cs *vCase) *vMachine {
 			if i < cfg.NColl {
 				coins = coins.Add(sdk.NewCoin(a.Denom, world.Pow10(27)))
 			} else {
-				coins = coins.Add(sdk.NewCoin(a.Denom, world.Pow10(a.DecExp).MulRaw(5)))
+				n := world.Pow10(a.DecExp).MulRaw(5)
+				if cfg.Liq != nil {
+					n = world.Pow10(a.DecExp + 7) // bidders need the debt asset
+				}
+				coins = coins.Add(sdk.NewCoin(a.Denom, n))
 			}
 		}
 		c.Fund(u.Addr, coins)
+	}
+	if cfg.Liq != nil {
+		m.setupLiq()
 	}
 	for _, lc := range cfg.Lockers {
 		app, asset := m.apps[lc.App], cfg.Assets[lc.Asset]
@@ -359,6 +381,11 @@ func (m *vMachine) genOp(rt *rapid.T, i int) vOp {
 	}
 	if m.prop == "C13" && len(cfg.Lockers) > 0 && rapid.IntRange(0, 9).Draw(rt, lbl("lockerop")) < 6 {
 		return m.genLockerOp(rt, i)
+	}
+	if cfg.Liq != nil && rapid.IntRange(0, 9).Draw(rt, lbl("liqop")) < 5 {
+		if op, ok := m.genLiqOp(rt, i); ok {
+			return op
+		}
 	}
 	k := rapid.SampledFrom(kinds).Draw(rt, lbl("kind"))
 	op := vOp{K: k}
@@ -615,7 +642,15 @@ func (m *vMachine) apply(i int, op vOp) {
 		pre = m.c13Snapshot()
 		defer func() { m.c13Delta(i, op, pre) }()
 	}
+	if cfg.Liq != nil {
+		m.pendingPre = m.liqSnapshot()
+		defer func() { m.flushLiqObserve(i, op) }()
+	}
 	switch op.K {
+	case "liqmsg", "bid", "extliq", "reserve", "lbdep", "lbwd", "lbcancel":
+		m.applyLiq(i, op)
+		m.invariants(i, op)
+		return
 	case "lcreate", "ldeposit", "lwithdraw", "lclose", "lcalc", "lsr", "lunsol":
 		m.applyLocker(i, op)
 		m.invariants(i, op)
@@ -712,7 +747,18 @@ func (m *vMachine) apply(i int, op vOp) {
 
 // ---- C01: custody and published totals ----
 
+// flushLiqObserve records seizures, bids and closes of the step just executed;
+// it runs before the invariants of the step (which need the model up to date).
+func (m *vMachine) flushLiqObserve(i int, op vOp) {
+	if m.pendingPre != nil {
+		pre := m.pendingPre
+		m.pendingPre = nil
+		m.liqObserve(i, op, pre)
+	}
+}
+
 func (m *vMachine) invariants(i int, op vOp) {
+	m.flushLiqObserve(i, op)
 	switch m.prop {
 	case "C01":
 		m.c01Invariants(i, op)
@@ -792,11 +838,26 @@ func (m *vMachine) c01Invariants(i int, op vOp) {
 		if p.Stable {
 			kind = "stable-mint"
 		}
-		if !cl.Equal(sumIn) {
-			m.fail("C01.collateral-locked-total", kind+",after:"+op.K, "step %d: product %s publishes collateral locked %s, open vaults sum to %s", i, p.Name, cl, sumIn)
+		// vaults awaiting auction settlement still count towards the product's totals
+		awaitIn, awaitPrincipal, awaitTotal := sdk.ZeroInt(), sdk.ZeroInt(), sdk.ZeroInt()
+		for _, sz := range m.seized {
+			if sz.product == pi && sz.initiator == "vault" {
+				awaitIn = awaitIn.Add(sz.collateral)
+				awaitPrincipal = awaitPrincipal.Add(sz.principal)
+				awaitTotal = awaitTotal.Add(sz.totalOut)
+			}
 		}
-		if !tm.Equal(sumOut) {
-			m.fail("C01.tokens-minted-total", kind+",after:"+op.K, "step %d: product %s publishes tokens minted %s, open vaults sum to %s", i, p.Name, tm, sumOut)
+		if !awaitIn.IsZero() {
+			kind += ",awaiting-settlement"
+		} else if m.nClosed > 0 {
+			kind += ",after-settlement"
+		}
+		if !cl.Equal(sumIn.Add(awaitIn)) {
+			m.fail("C01.collateral-locked-total", kind+",after:"+op.K, "step %d: product %s publishes collateral locked %s, open vaults sum to %s, vaults awaiting settlement hold %s", i, p.Name, cl, sumIn, awaitIn)
+		}
+		// for a vault awaiting settlement either its principal or its recorded total debt may be published
+		if !tm.Equal(sumOut.Add(awaitPrincipal)) && !tm.Equal(sumOut.Add(awaitTotal)) {
+			m.fail("C01.tokens-minted-total", kind+",after:"+op.K, "step %d: product %s publishes tokens minted %s, open vaults sum to %s, vaults awaiting settlement: principal %s / total debt %s", i, p.Name, tm, sumOut, awaitPrincipal, awaitTotal)
 		}
 		if len(stats.VaultIds) != len(ids) {
 			m.fail("C01.vault-id-list", kind+",after:"+op.K, "step %d: product %s lists vault ids %v, open vault ids %v", i, p.Name, stats.VaultIds, ids)
@@ -1015,8 +1076,33 @@ func (m *vMachine) finish() {
 		}
 	}
 	ok := m.okKinds
+	if m.cs.Cfg.Liq != nil {
+		r.ClassN("vaults-seized", m.nSeized)
+		r.ClassN("auctions-closed", m.nClosed)
+		r.ClassN("auctions-closed-after->=2-bids-by->=2-bidders", m.nRichClose)
+		r.ClassN("auction-restarts", m.nRestarts)
+	}
 	switch m.prop {
+	case "C09":
+		if m.nSeized > 0 {
+			r.NonTrivial(m.cs)
+		}
+	case "C10":
+		if m.nRichClose > 0 {
+			r.NonTrivial(m.cs)
+		}
+	case "C11":
+		r.ClassN("limit-bid-exits", m.nLimitExit)
+		if m.nLimitOdd > 0 {
+			r.NonTrivial(m.cs)
+		}
 	case "C01":
+		if m.cs.Cfg.Liq != nil {
+			if m.nSeized > 0 && m.nClosed > 0 {
+				r.NonTrivial(m.cs)
+			}
+			break
+		}
 		if multi && ok["deposit"]+ok["withdraw"] > 0 && ok["draw"]+ok["repay"]+ok["depdraw"] > 0 && ok["close"] > 0 {
 			r.NonTrivial(m.cs)
 		}
@@ -1034,15 +1120,19 @@ func (m *vMachine) finish() {
 	}
 }
 
-func vaultCheck(t *testing.T, prop string) {
-	r := rec.New(prop, "vault")
+func vaultCheck(t *testing.T, prop, sub string, liq bool) {
+	r := rec.New(prop, sub)
 	t.Cleanup(r.Flush)
 	rapid.Check(t, func(rt *rapid.T) {
 		r.Guard(func() {
 			r.Eval()
-			cs := &vCase{Cfg: genVCfg(rt, prop)}
+			cs := &vCase{Cfg: genVCfg(rt, prop, liq)}
 			m := newVMachine(rt, r, prop, cs)
-			n := rapid.IntRange(8, 45).Draw(rt, "nops")
+			hi := 45
+			if liq {
+				hi = 80
+			}
+			n := rapid.IntRange(8, hi).Draw(rt, "nops")
 			for i := 0; i < n; i++ {
 				op := m.genOp(rt, i)
 				cs.Ops = append(cs.Ops, op)
@@ -1068,16 +1158,24 @@ func vaultReplay(prop string) func(t *testing.T, r *rec.Rec, raw json.RawMessage
 	}
 }
 
-func TestC01_vault(t *testing.T) { vaultCheck(t, "C01") }
-func TestC02_vault(t *testing.T) { vaultCheck(t, "C02") }
-func TestC03_vault(t *testing.T) { vaultCheck(t, "C03") }
-func TestC13_vault(t *testing.T) { vaultCheck(t, "C13") }
+func TestC01_vault(t *testing.T)  { vaultCheck(t, "C01", "vault", false) }
+func TestC01_liq(t *testing.T)    { vaultCheck(t, "C01", "liq", true) }
+func TestC02_vault(t *testing.T)  { vaultCheck(t, "C02", "vault", false) }
+func TestC03_vault(t *testing.T)  { vaultCheck(t, "C03", "vault", false) }
+func TestC13_vault(t *testing.T)  { vaultCheck(t, "C13", "vault", false) }
+func TestC09_vaults(t *testing.T) { vaultCheck(t, "C09", "vaults", true) }
+func TestC10_dutch(t *testing.T)  { vaultCheck(t, "C10", "dutch", true) }
+func TestC11_limit(t *testing.T)  { vaultCheck(t, "C11", "limit", true) }
 
 func init() {
 	replayers["C01.vault"] = vaultReplay("C01")
 	replayers["C02.vault"] = vaultReplay("C02")
 	replayers["C03.vault"] = vaultReplay("C03")
 	replayers["C13.vault"] = vaultReplay("C13")
+	replayers["C01.liq"] = vaultReplay("C01")
+	replayers["C09.vaults"] = vaultReplay("C09")
+	replayers["C10.dutch"] = vaultReplay("C10")
+	replayers["C11.limit"] = vaultReplay("C11")
 }
 
 var _ = assettypes.ModuleName
